@@ -23,6 +23,17 @@ type JT struct {
 	Q     bool                `json:"q"`
 	V     bool                `json:"v"`
 	S     string              `json:"s"`
+	Tag   []int               `json:"tag"`
+}
+
+// LegacyNames switches Match to the legacy spelling of constructor names: "name#%08x".
+var LegacyNames bool
+
+func (t *JT) nameText() string {
+	if LegacyNames && len(t.Tag) == 4 {
+		return fmt.Sprintf("%s#%02x%02x%02x%02x", t.S, t.Tag[3], t.Tag[2], t.Tag[1], t.Tag[0])
+	}
+	return t.S
 }
 
 func bytesFromInts(a []int) []byte {
@@ -331,8 +342,8 @@ func (t *JT) Match(got *jv, path string) error {
 			return fmt.Errorf("%s: expected string %q", path, string(bytesFromInts(t.B)))
 		}
 	case "name":
-		if got.kind != 's' || got.s != t.S {
-			return fmt.Errorf("%s: expected %q", path, t.S)
+		if got.kind != 's' || got.s != t.nameText() {
+			return fmt.Errorf("%s: expected %q", path, t.nameText())
 		}
 	case "b64":
 		if got.kind != 'o' || len(got.keys) != 1 || got.keys[0] != "base64" || got.vals[0].kind != 's' {
